@@ -834,6 +834,13 @@ impl<F: Read + Write + Seek> Package<F> {
                 .filter_map(Value::string_to_intern)
                 .map(|string| (None, Some(string))),
         )?;
+        // A new table starts out empty, even if a stream with its name was
+        // left behind in the file (e.g. by a table that was removed from the
+        // catalog tables by hand).
+        let stream_name = streamname::encode(&table_name, true);
+        if self.comp().exists(&stream_name) {
+            self.comp_mut().remove_stream(&stream_name)?;
+        }
         self.insert_rows(Insert::into(COLUMNS_TABLE_NAME).rows(columns_rows))?;
         self.insert_rows(Insert::into(TABLES_TABLE_NAME).rows(tables_rows))?;
         let long_string_refs = self.string_pool.long_string_refs();
